@@ -306,6 +306,11 @@ impl Store {
                     count += 1;
                 }
 
+                // The historical frames already met the limit: nothing may follow them
+                if options.limit.is_some_and(|limit| count >= limit) {
+                    return;
+                }
+
                 #[cfg(feature = "verif")]
                 crate::verif::sync("hist.end", None, verif_reader);
                 // Send threshold message if following and no limit
